@@ -9,7 +9,9 @@ direct oracle: include trees to depth 4 and fan-out 3 executed by the implementa
 correspondence: Model/Url.v url_file_relative = implementation on generated (base, url) pairs incl. odd ones;
                Model/Url.v run = implementation's interleaved fetch/log events and outcome on the generated trees.
 """
+import glob
 import json
+import os
 import re
 
 from . import core
@@ -399,6 +401,35 @@ def run(tier):
         for cls, detail in bad[:2]:
             chk.oracle_fail.append({'class': cls, 'input': {k: tree[k] for k in ('root_loc', 'sysprefix', 'have_fetch', 'root_body', 'files')},
                                     'detail': detail, 'source': impl_case(tree)['root']})
+    # ---- direct oracle: the shipped includes through the CLI fetcher (`include <x.bare>`; x.bare itself includes siblings by
+    #      plain relative paths, which must resolve against x.bare's own resolved location under the system prefix)
+    inc_dir = os.path.join(core.REPO, 'src', 'bare_script', 'include')
+    shipped = {}
+    for path in sorted(glob.glob(os.path.join(inc_dir, '*.bare'))):
+        with open(path, encoding='utf-8') as fh:
+            body = []
+            for ln in fh.read().split('\n'):
+                m1 = re.match(r"^include\s+'([^']*)'\s*$", ln)
+                m2 = re.match(r'^include\s+<([^>]*)>\s*$', ln)
+                if m1 or m2:
+                    body.append(['include', [[(m1 or m2).group(1), bool(m2)]]])
+            shipped[os.path.basename(path)] = body
+    cli_names = sorted(shipped)
+    cli = core.run_impl('include_tree', [{'cli_root': f'include <{n}>\n'} for n in cli_names], shards=1) if cli_names else []
+    n_cli_nested = 0
+    for name, got in zip(cli_names, cli):
+        prefix = got.get('prefix')
+        if not isinstance(prefix, str):
+            chk.oracle_fail.append({'class': 'cli-include-failed', 'input': {'include': name}, 'got': got, 'source': f'include <{name}>'})
+            continue
+        files = {c17_ref.canon(prefix + n): {'body': b} for n, b in shipped.items()}
+        exp = c17_ref.ref_run(files, [['include', [[name, True]]]], None, prefix)
+        got_locs = [c17_ref.canon(u) for u in got.get('fetched', [])]
+        n_cli_nested += 1 if len(exp['fetched']) > 1 else 0
+        if got.get('exc') is not None or got_locs != exp['fetched'] or exp['fail'] is not None:
+            chk.oracle_fail.append({'class': 'cli-include-fetch-sequence', 'input': {'include': name}, 'expected_locations': exp['fetched'],
+                                    'got': got, 'source': f'include <{name}>'})
+
     # ---- direct oracle on url_file_relative: the resolved LOCATION is the one the property prescribes (path-like inputs only)
     n_ufr_oracle = 0
     for (b, u, tag), got in zip(pairs, ufr):
@@ -450,7 +481,7 @@ def run(tier):
             chk.corr_fail.append({'class': 'model-differs', 'more': len(bad) - 12})
 
     chk.coverage = {
-        'evaluations': len(trees) + len(pairs),
+        'evaluations': len(trees) + len(pairs) + len(cli_names),
         'distinct_nontrivial': nontrivial,
         'rule': 'include trees (depth <= 4, fan-out <= 3, <= 45 include entries) over a dict-backed fetchFn: URL / relative / absolute path / '
                 'no root location; system prefixes (none, relative, absolute, URL, the CLI prefix, without trailing slash); references with '
@@ -460,6 +491,7 @@ def run(tier):
         'exhaustive': False,
         'distribution': dict(sorted(dist.items())), 'expected_outcomes': outcomes,
         'fetches_per_tree_hist': dict(sorted(depth_hist.items())),
+        'cli_system_includes': len(cli_names), 'cli_system_includes_with_nested_include': n_cli_nested,
         'url_file_relative_pairs': len(pairs), 'url_file_relative_pairs_with_location_oracle': n_ufr_oracle,
         'correspondence_cases': corr_n,
         'samples': [{'root': payload[i]['root'], 'root_loc': trees[i]['root_loc'], 'sysprefix': trees[i]['sysprefix'],
